@@ -86,7 +86,7 @@ def run_sequence(part, m, seq, campaign):
     undo = fake_kernel.install()
     try:
         s = isotp.socket()
-        fk = s._socket
+        fk = s.real_socket() if hasattr(s, 'real_socket') else s._socket
         m.p.stdin.write('S reset\nK reset\n'); m.p.stdin.flush(); m.p.stdout.readline(); m.p.stdout.readline()
         ref = dict(INIT)
         for kind, kw in seq:
